@@ -1,4 +1,5 @@
 import EdVerif.Ssa.ProvSound.Basic
+import EdVerif.Ssa.ProvSound.Fast
 /-!
 # What the verdicts say, per instruction
 -/
@@ -99,7 +100,7 @@ theorem sideSelector_eq (P : Program) (H : List FuncHints) (fi : Nat) (f : Func)
   simp [Side.sideSelector, forceList_eq]
 
 theorem facts_of_ok {P : Program} {H : List FuncHints} (h : provOkSimple P H = true) : Facts P H := by
-  simp only [provOkSimple, provSideOk, Bool.and_eq_true] at h
+  simp only [provOkSimple, provSideOk_eq, Bool.and_eq_true] at h
   have hp := allClean_spec _ _ _ _ h.1
   have hs := allClean_spec _ _ _ _ h.2
   refine ⟨?_, ?_, ?_, ?_, ?_, ?_⟩
